@@ -47,6 +47,7 @@ func init() {
 			{ID: "C06-R24", Title: "iterators that are not bounded by data poll the context", Floor: 1, Run: iteratorsThatAreNotBoundedByDataPollTheContext},
 			{ID: "C06-R25", Title: "what ends a blocked operation waits for no lock that the operation holds", Floor: 1, Run: whatEndsABlockedOperationWaitsForNoLockItHolds},
 			{ID: "C06-R26", Title: "callback loops are bounded by what was there", Floor: 1, Run: callbackLoopsAreBoundedByWhatWasThere},
+			{ID: "C06-R27", Title: "processes are started with the context", Floor: 2, Run: processesAreStartedWithTheContext},
 		},
 	})
 }
